@@ -128,6 +128,7 @@ NESTED_NULLS = [
 ]
 SPECIAL_PAYLOADS = SPECIAL_PAYLOADS[:1] + NESTED_NULLS + SPECIAL_PAYLOADS[1:]
 SPECIAL_PAYLOADS = SPECIAL_PAYLOADS + [TWINS]
+
 ENUM_METHODS = ["PING", "TOOLS_CALL", "NOTIFICATION_PROGRESS", "NOTIFICATION_CANCELLED"]
 # caller params that already carry `_meta` (other keys, falsy values, nested nulls, a stale progress token)
 META_PAYLOADS = [
@@ -138,6 +139,22 @@ META_PAYLOADS = [
     {"o": [[J.cps("_meta"), {"o": [[J.cps("progressToken"), {"i": 0}]]}], [J.cps("z"), {"a": [None]}]]},
     {"o": [[J.cps("x"), {"o": [[J.cps("_meta"), {"o": [[J.cps("deep"), None]]}]]}], [J.cps("_meta"), {"o": [[J.cps("trace"), J.S("é\u2028")]]}]]},
 ]
+# member NAMES that look like credentials, header names or the envelope's own reserved words, at depth 1..3
+NAMEY = ["token", "password", "secret", "api_key", "apikey", "authorization", "Authorization", "access_token", "refresh_token", "client_secret",
+         "passwd", "cookie", "id", "method", "jsonrpc", "result", "error", "params", "_meta", "progressToken", "code", "message", "data"]
+
+
+def _namey(depth):
+    vals = [J.S("v"), {"i": 7}, None, False, {"a": [J.S("x"), None]}]
+    members = [[J.cps(k), vals[i % len(vals)]] for i, k in enumerate(NAMEY)]
+    t = {"o": members}
+    for d in range(depth - 1):
+        t = {"o": [[J.cps(NAMEY[d]), t], [J.cps("list"), {"a": [t, {"o": members[:3]}]}]] + members[3 + d:8 + d]}
+    return t
+
+
+NAME_PAYLOADS = [_namey(1), _namey(2), _namey(3)]
+SPECIAL_PAYLOADS = SPECIAL_PAYLOADS + NAME_PAYLOADS[:2]
 BAD_META = [
     {"o": [[J.cps("_meta"), None]]}, {"o": [[J.cps("_meta"), {"s": J.cps("str")}]]}, {"o": [[J.cps("_meta"), {"a": []}]]},
     {"o": [[J.cps("_meta"), {"i": 1}]]},
@@ -454,6 +471,14 @@ def gen_cases(ctx, budget, names):
             if "stdio" not in name:
                 for inner in R.STDIO_ONLY_INNERS:  # not a model and not a dict: nothing may go out
                     out.append(_case(name, inner=inner, id=pick_id(), method=pick_text(), params=TWINS))
+            for np_, payload_ in enumerate(NAME_PAYLOADS):
+                for inner in ("request", "notification", "response", "error", "dict", "direct-request", "parsed-request", "legacy-request"):
+                    for dbg in (True, "named", False):
+                        c_ = _case(name, inner=inner, id=pick_id(), method=pick_text(), params=payload_, result=payload_, code=rng.choice(codes),
+                                   message=pick_text(), data=payload_, opts=np_ % 3)
+                        c_["debug_log"] = dbg
+                        c_["debug_fixed"] = True
+                        out.append(c_)
             for ki, inner in enumerate(kinds):
                 for i in (ids[ki % 2::2] if quick else ids):
                     for p in [None, {"o": []}] + SPECIAL_PAYLOADS[:4]:
@@ -491,8 +516,11 @@ def gen_cases(ctx, budget, names):
     seen_branch = set()
     for i, c in enumerate(out):
         b = (c["emitter"], branch_of(c))
+        if c.get("debug_fixed"):
+            seen_branch.add(b)
+            continue
         if i % 4 == 0 or b not in seen_branch:
-            c["debug_log"] = True
+            c["debug_log"] = "named" if i % 8 == 0 else True
         seen_branch.add(b)
     return out
 
